@@ -253,6 +253,24 @@ func runC12(env *Env, data map[string]any) *Outcome {
 			fail("the report's grand total differs from `klog total`", rep.Stdout, tot.Stdout)
 		}
 		implLine = fmt.Sprintf("ok [%s] %d/%d", strings.Join(implRows, ","), ft, fs)
+		// the same report with a chart: the chart is an extra column, every value cell stays where it is
+		if len(text)%3 == 0 {
+			repC := runCLI(env, opts, append(append([]string{}, args...), "--chart", file)...)
+			evals++
+			rowsC, footerC, okC := parseTable(repC.Stdout)
+			same := repC.Panic == "" && repC.Code == 0 && okC && len(rowsC) == len(rows) && strings.Join(footerC, "|") == strings.Join(footer, "|")
+			if same {
+				for i := range rows {
+					if strings.Join(rowsC[i], "|") != strings.Join(rows[i], "|") {
+						same = false
+					}
+				}
+			}
+			if !same {
+				fail("`klog report --chart` shows other values than the same report without the chart", repC.Stdout+repC.Err+repC.Panic, rep.Stdout)
+			}
+			o.Tags = append(o.Tags, "chart")
+		}
 		// oracle rows: one per period that contains a record (chronological), plus empty ones when filling
 		type bucket struct{ t, s int }
 		byKey := map[string]*bucket{}
@@ -374,6 +392,27 @@ func runC12(env *Env, data map[string]any) *Outcome {
 			}
 			if ct+ot != at {
 				fail("klog today --now: current + other != all", tn.Stdout, "")
+			}
+		}
+	}
+	// … and `today --now` closes / refuses exactly what `total --now` closes / refuses
+	if tn.Panic == "" {
+		totN := runCLI(env, opts, "total", "--diff", "--now", "--decimal", "--no-style", "--no-warn", file)
+		evals++
+		if totN.Panic == "" {
+			if (totN.Code == 0) != (tn.Code == 0) {
+				fail("one of `klog today --now` and `klog total --now` refuses the open ranges and the other does not", fmt.Sprintf("today exit %d: %s", tn.Code, tn.Stdout+tn.Err), fmt.Sprintf("total exit %d: %s", totN.Code, totN.Stdout+totN.Err))
+			} else if tn.Code == 0 {
+				gN := map[string]int{}
+				for _, m := range reTotalLine.FindAllStringSubmatch(totN.Stdout, -1) {
+					v, _ := strconv.Atoi(m[2])
+					gN[m[1]] = v
+				}
+				if _, footer, ok := parseTable(tn.Stdout); ok && len(footer) >= 1 {
+					if at, ok := cellInt(footer[0]); ok && at != gN["Total"] {
+						fail("`klog today --now`: the total of all records differs from `klog total --now`", tn.Stdout, totN.Stdout)
+					}
+				}
 			}
 		}
 	}
